@@ -634,6 +634,27 @@ func c09(r *mon.Run) {
 			cx.runBoth(tree, gen.SpellTight(tree), map[string]interface{}{"a": arr})
 			t.NontrivialDistinct(1)
 		}}
+	// calls on what another call hands back (an element chosen by max_by, the list itself through to_array / not_null / ||), written
+	// TWICE in one expression and under the contexts that evaluate their hole more than once: the second evaluation sees what the first saw
+	hbTrees := c06HandBacks(false)
+	hbw := mon.Workload{Name: "calls-on-hand-backs-evaluated-twice", N: len(hbTrees) * 3, Batch: 200,
+		Do: func(i int, t *mon.Tally) {
+			hb := hbTrees[i/3]
+			var tree *gen.Expr
+			switch i % 3 {
+			case 0:
+				tree = gen.MultiList(gen.Clone(hb), gen.Clone(hb))
+			case 1:
+				tree = gen.Func("map", gen.ExpRef(gen.Clone(hb)), gen.LitJSON("[1,2,3]"))
+			default:
+				tree = gen.MultiHash([]gen.Key{{Name: "p"}, {Name: "q"}, {Name: "r"}}, []*gen.Expr{gen.Clone(hb), gen.Field("an"), gen.Clone(hb)})
+			}
+			cx := &caseCtx{r, t, "calls-on-hand-backs-evaluated-twice", i}
+			res, _, _ := cx.runBoth(tree, gen.Spell(tree), cbase)
+			if nonNull(res) {
+				t.Nontrivial("hb2:" + strconv.Itoa(i))
+			}
+		}}
 	// nested in random contexts
 	nr := tierPick(r, 40000, 1000000)
 	ctx := mon.Workload{Name: "calls-in-context", N: nr,
@@ -798,7 +819,7 @@ func c09(r *mon.Run) {
 				t.Count("by-functions over lists with nulls: value expected")
 			}
 		}}
-	r.Exec(exh, typed, every, strw, trw, akw, kindPairsWorkload(r, "C09"), ctx, large, sizedWorkload(r, "sized-arrays", false), reuse, nullw, edgew, cuw, zsw, prodw, lkw)
+	r.Exec(exh, typed, every, strw, trw, akw, kindPairsWorkload(r, "C09"), ctx, large, sizedWorkload(r, "sized-arrays", false), reuse, nullw, edgew, cuw, zsw, prodw, lkw, hbw)
 }
 
 // c09ReuseTrees: calls nested in the arguments of other calls (and in expression references, projections,
